@@ -20,6 +20,10 @@ import numpy as np
 from sim.kernel import Sim, make_policy, StepCap, Deadlock, SimClock
 from sim.executors import SimPoolBase, SimThreadPool, SimProcessPool
 from sim.mp import SimQueue, SimProcess
+from sim.fsseam import SimLocalFS, HOOK as _FS_HOOK
+from sim.linepreempt import LinePreempt
+from sim.executors import sim_as_completed, sim_wait
+import concurrent.futures as _cf
 from sim.runner import new_result, scratch_root
 from sim.seams import patched, NoGC, import_typhon, fresh_dir
 from sim import digest_of
@@ -230,6 +234,16 @@ def gen_workload(tape):
     w["bundle"] = tape.pick([None, "primary", "daily"], "bundle")
     w["output"] = tape.pick(["memory", "fileset", "search"], "output")
     w["max_threads"] = tape.pick([3, 1, 2], "threads")
+    w["out_dirs"] = tape.flag("out_dirs", 1, 2)      # output template with sub directories
+    # rarely: one file of each fileset is dense (> 10^6 candidate pairs for that
+    # file pair -> the temporally pre-binned search inside a worker)
+    w["dense"] = tape.flag("dense", 1, 150)
+    if w["dense"]:
+        # several time bins only with an interval well below the file length
+        w["max_interval"] = tape.pick([300, 30, 3600, 10800], "mi_dense")
+    w["line_stride"] = 17 + tape.choice(40, "linestride") if w["dense"] else 0
+    w["line_phase"] = 1 + tape.choice(60, "linephase") if w["dense"] else 0
+    w["store_stride"] = 1 + tape.choice(5, "storestride") if w["dense"] else 0
     allfiles = [("A", f["k"]) for f in w["A"]["files"]] + \
                [("B", f["k"]) for f in w["B"]["files"]]
     w["unreadable"] = None
@@ -271,11 +285,21 @@ def _relpath(w, side, k):
 def _points(w, side):
     """All points of one fileset: list of dict(id, t(datetime), lat, lon, file)."""
     out = []
-    base_id = 1000 if side == "A" else 5000
+    base_id = 1000 if side == "A" else 500000
     n = 0
-    for f in w[side]["files"]:
+    for fi_, f in enumerate(w[side]["files"]):
         t0, _ = _times(w, side, f["k"])
-        for off, c, j in f["pts"]:
+        pts = list(f["pts"])
+        if w.get("dense") and fi_ == 0:
+            # 1100 pseudo-random points in the first file (deterministic),
+            # inside the hours both first files cover, so that the pair has
+            # > 10^6 candidate combinations after the common-period cut
+            span = min(w["A"]["L"], w["B"]["L"]) * 3600
+            seed = 12345 if side == "A" else 54321
+            for q in range(1100):
+                seed = (seed * 1103515245 + 12345) % (2 ** 31)
+                pts.append([seed % span, [0, 1, 3][q % 3], q % 4])
+        for off, c, j in pts:
             lat, lon = CLUSTERS[c]
             out.append({"id": base_id + n, "t": t0 + timedelta(seconds=off),
                         "lat": lat + 0.002 * j, "lon": lon,
@@ -299,15 +323,29 @@ def expected_pairs(w, R_km):
     A = [p for p in _points(w, "A") if start <= p["t"] <= end]
     B = [p for p in _points(w, "B") if start <= p["t"] <= end]
     sure, border = set(), set()
-    for p in A:
-        for q in B:
-            if abs((p["t"] - q["t"]).total_seconds()) >= w["max_interval"]:
-                continue
-            d = _chord_km(p, q, R_km)
-            if abs(d - w["max_distance"]) < 1e-6:
-                border.add((p["id"], q["id"]))
-            elif d < w["max_distance"]:
-                sure.add((p["id"], q["id"]))
+    if not A or not B:
+        return sure, border, A, B
+
+    def xyz(P):
+        la = np.radians(np.array([p["lat"] for p in P]))
+        lo = np.radians(np.array([p["lon"] for p in P]))
+        return np.stack([R_km * np.cos(la) * np.cos(lo),
+                         R_km * np.cos(la) * np.sin(lo), R_km * np.sin(la)], axis=1)
+    XA, XB = xyz(A), xyz(B)
+    tA = np.array([(p["t"] - BASE).total_seconds() for p in A])
+    tB = np.array([(p["t"] - BASE).total_seconds() for p in B])
+    ida = [p["id"] for p in A]
+    idb = [p["id"] for p in B]
+    # row blocks keep the temporary arrays small for the dense workloads
+    for r0 in range(0, len(A), 256):
+        d = XA[r0:r0 + 256, None, :] - XB[None, :, :]
+        D = np.sqrt((d * d).sum(axis=2))
+        close = np.abs(tA[r0:r0 + 256, None] - tB[None, :]) < w["max_interval"]
+        near_border = np.abs(D - w["max_distance"]) < 1e-6
+        for i, j in np.argwhere(close & near_border):
+            border.add((ida[r0 + i], idb[j]))
+        for i, j in np.argwhere(close & ~near_border & (D < w["max_distance"])):
+            sure.add((ida[r0 + i], idb[j]))
     return sure, border, A, B
 
 
@@ -349,6 +387,8 @@ def _cov_td(w, side):
 
 OUT_TMPL = ("out/{year}{month}{day}{hour}{minute}{second}-{end_year}{end_month}"
             "{end_day}{end_hour}{end_minute}{end_second}.dat")
+OUT_TMPL_DIRS = ("out/{year}/{month}/{day}/{hour}{minute}{second}-{end_year}"
+                 "{end_month}{end_day}{end_hour}{end_minute}{end_second}.dat")
 
 
 # ------------------------------------------------------------------- the run
@@ -380,6 +420,30 @@ def run_one(tape, only=None):
         return [0.0, 0.3, 1.5, 6.0][tape.choice(3, "qdelay_len") + 1]
     SimQueue.delay_fn = staticmethod(delay_fn)
     clock = SimClock(sim)
+    _FS_HOOK[0] = lambda label: sim.yield_(label) if sim.me() is not None else None
+    extra_seams = []
+    for mod in (cmod, _cf):
+        for name, fake in (("ThreadPoolExecutor", SimThreadPool),
+                           ("ProcessPoolExecutor", SimProcessPool),
+                           ("as_completed", sim_as_completed), ("wait", sim_wait)):
+            if mod is _cf or hasattr(mod, name):
+                extra_seams.append((mod, name, fake))
+    _orig_binned = cmod.Collocator.spatial_search_with_temporal_binning
+
+    def _binned(self_, *a, **k):
+        sim.probe("binned_path")
+        return _orig_binned(self_, *a, **k)
+    extra_seams.append((cmod.Collocator, "spatial_search_with_temporal_binning", _binned))
+    if w["line_stride"]:
+        from sim.linepreempt import periodic_points
+        import typhon.geographical as _gmod
+        lp = LinePreempt(sim, [cmod, _gmod],
+                         periodic_points(w["line_phase"], w["line_stride"], 400),
+                         only="pool",
+                         store_points=periodic_points(
+                             1 + w["line_phase"] % w["store_stride"],
+                             w["store_stride"], 600))
+        sim.line_preempt = lp
     outcome = {"yielded": [], "crashed": 0}
     procs_snapshot = []
     orig_get = SimQueue.get
@@ -392,12 +456,12 @@ def run_one(tape, only=None):
             sets[side] = FileSet(
                 f"{root}/{side}/{tmpl}", handler=handler, name=side,
                 time_coverage=_cov_td(w, side) if needs_cov else None,
-                max_threads=w["max_threads"])
+                max_threads=w["max_threads"], fs=SimLocalFS())
         out_fs = None
         if w["output"] != "memory":
             out_fs = _T["Collocations"](
-                f"{root}/{OUT_TMPL}", handler=handler, name="OUT",
-                read_mode="compact")
+                f"{root}/{OUT_TMPL_DIRS if w['out_dirs'] else OUT_TMPL}",
+                handler=handler, name="OUT", read_mode="compact", fs=SimLocalFS())
         start = BASE + timedelta(seconds=w["period"][0])
         end = BASE + timedelta(seconds=w["period"][1])
         mi = w["max_interval"]
@@ -439,7 +503,7 @@ def run_one(tape, only=None):
                      (fsmod, "ProcessPoolExecutor", SimProcessPool),
                      (fsmod, "gc", NoGC), (cmod, "gc", NoGC),
                      (cmod, "Process", SimProcess), (cmod, "Queue", SimQueue),
-                     (tmod, "time", clock)), warnings.catch_warnings():
+                     (tmod, "time", clock), *extra_seams), warnings.catch_warnings():
             warnings.simplefilter("ignore")
             np.random.seed(tape.choice(2 ** 31, "npseed"))
             try:
@@ -457,6 +521,7 @@ def run_one(tape, only=None):
                                        procs_snapshot, queues)
     finally:
         SimQueue.get = orig_get
+        _FS_HOOK[0] = None
         ST = None
         for cls in (SimPoolBase, SimQueue, SimProcess):
             cls.sim = None
@@ -466,6 +531,8 @@ def run_one(tape, only=None):
 
     res["violations"] = violations
     res["faults"] = dict(st.fired)
+    if sim.line_preempt is not None and sim.line_preempt.fired:
+        sim.probe("line_preemptions_in_pool_workers")
     res["probes"] = dict(sim.probes)
     res["nontrivial"] = info["expected"] > 0 and (
         sim.stats["decisions_gt1"] > 0 or bool(st.fired))
@@ -572,9 +639,14 @@ def _oracle(w, st, sim, outcome, policy, out_fs, procs, queues):
     else:
         names = outcome["yielded"] if w["output"] == "fileset" else None
         outdir = os.path.join(st.root, "out")
-        ondisk = sorted(os.listdir(outdir)) if os.path.isdir(outdir) else []
-        for fn in ondisk:
-            path = os.path.join(outdir, fn)
+        found_files = []
+        for dp, dn, fns in os.walk(outdir):
+            for fn in fns:
+                found_files.append(os.path.join(dp, fn))
+        found_files.sort()
+        ondisk = [os.path.basename(p_) for p_ in found_files]
+        for path in found_files:
+            fn = os.path.basename(path)
             try:
                 ds = out_fs.read(path)
                 fi = out_fs.get_info(path)
@@ -594,7 +666,8 @@ def _oracle(w, st, sim, outcome, policy, out_fs, procs, queues):
                     V.append(_viol("C05/output-name-span",
                                    f"{fn}: name says {fi.times}, primaries span {span}"))
         if names is not None:
-            if sorted(set(os.path.basename(str(n)) for n in names)) != ondisk:
+            if sorted(set(os.path.abspath(str(n)) for n in names)) != \
+                    sorted(os.path.abspath(p_) for p_ in found_files):
                 V.append(_viol("C05/output-names-yielded",
                                f"yielded {sorted(map(str, names))[:5]} vs on disk {ondisk[:5]}"))
     info["found"] = len(found)
